@@ -68,6 +68,13 @@ func scenarioC16(c *RunCtx) {
 		}
 		snap := StepEpoch(c, w, false, &EpochHooks{KeepHooks: func() bool { return sched.Pending() > 0 }}, c.Lib)
 		c.Steps++
+		if sched.IdentityMismatch > 0 {
+			// a goroutine announced itself under another species' id than the one it was spawned for; the scheduler adopted
+			// it under a free slot. Not a verdict by itself (the hooks are the harness's own): the race detector and the
+			// population oracles judge what the goroutine did.
+			c.Count("observe.goroutine_identity_mismatch")
+			c.Op("epoch %d: %d reproduction goroutine(s) announced another species id than the one spawned (announced %d, adopted as %d)", e, sched.IdentityMismatch, sched.MismatchIds[0], sched.MismatchIds[1])
+		}
 		if n := sched.Pending(); n > 0 {
 			// NextEpoch has returned although reproduction goroutines of this turnover are still alive. The caller does
 			// what callers do next (assign fitness, look at the species) and the stragglers run on: the race detector
